@@ -216,13 +216,23 @@ def finding_for(findings, prop, ob, failure):
 # ---------------------------------------------------------------------------------------------
 # replay
 # ---------------------------------------------------------------------------------------------
-def extract_playback_test(text):
-    m = re.search(r'```\n(.*?)```', text, re.S)
-    if not m:
-        # fall back: from "#[test]" to the closing brace of the function
-        m2 = re.search(r'(/// Test generated for harness.*?\n}\n)', text, re.S)
-        return m2.group(1) if m2 else None
-    return m.group(1)
+def extract_playback_tests(text):
+    """all unit tests printed by --concrete-playback=print as (check class, description, code); Kani also prints
+    tests for SATISFIED cover statements -- those are not counterexamples"""
+    out = []
+    for m in re.finditer(r'```\n(.*?)```', text, re.S):
+        code = m.group(1)
+        h = re.search(r'/// Check for `(\w+)`: "?(.*?)"?\s*\n', code)
+        out.append((h.group(1) if h else 'assertion', (h.group(2) if h else '').strip('"'), code))
+    return out
+
+
+def extract_playback_test(text, fail_descs=None):
+    tests = [t for t in extract_playback_tests(text) if t[0] != 'cover']
+    if fail_descs:
+        pref = [t for t in tests if any(d and (d in t[1] or t[1] in d) for d in fail_descs)]
+        tests = pref + [t for t in tests if t not in pref]
+    return tests[0][2] if tests else None
 
 
 def loc_key(loc):
@@ -516,7 +526,7 @@ def replay_failure(slot, prop, ob, ov, caps, consts, logdir, unknown=None):
     # trace extraction needs noticeably more memory than the verdict alone
     rc, to, dt = run_capped(cmd, ov, lf, ob.get('timeout', 900) * 2, max(2 * ob.get('mem_gb', 16), 40))
     text = open(lf, errors='replace').read()
-    test = extract_playback_test(text)
+    test = extract_playback_test(text, [u['desc'] for u in (unknown or [])])
     meta = {'property': prop, 'obligation': ob['id'], 'harness': ob['harness'], 'part': ob['part'], 'caps': caps, 'consts': consts, 'needs_parts': ob.get('needs_parts', [])}
     if not test:
         json.dump(dict(meta, error='no concrete playback test produced'), open(os.path.join(outdir, 'meta.json'), 'w'), indent=1)
